@@ -5,7 +5,14 @@
 * matplotlib backend forced to Agg.
 """
 import os
+import sys
 import warnings
+
+# SNOW_REPO=/path/to/scratch/worktree points the harness at another source tree
+# (used to try candidate fixes and seeded mutants without touching /repo).
+_repo = os.environ.get("SNOW_REPO")
+if _repo:
+    sys.path.insert(0, os.path.join(_repo, "src"))
 
 os.environ.setdefault("MPLBACKEND", "Agg")
 os.environ.setdefault("SPL_ETHZ_SNOW_VERIF", "1")
